@@ -93,9 +93,8 @@ def c20_sig(v):
             # every feature of the file that a known defect trips over (a file may have several: all are named, so that an
             # entry of known_findings.json stops matching as soon as its own defect is the only one repaired)
             attrs = got.get("in_attrs") or []
-            feats = (["pool-has-long-or-double"] if got.get("in_wide") else []) \
-                + (["has-MethodParameters"] if "MethodParameters" in attrs else []) \
-                + (["modelled-attribute-name-in-foreign-location"] if got.get("in_foreign") else [])
+            # (the pool-slot and MethodParameters defects are repaired in /repo: their features no longer explain a refusal)
+            feats = (["modelled-attribute-name-in-foreign-location"] if got.get("in_foreign") else [])
             return "impl|bytes|read-refused|" + ("+".join(feats) or "other")
         if got.get("first_diff") != -1 or got.get("out_n") != got.get("n"):
             d = got.get("diff") or {}
